@@ -664,11 +664,27 @@ func (g *Gen) Program() []core.Op {
 			}
 		case 9:
 			prog = append(prog, &Op{Kind: "delete", Name: t})
+			if g.R.Chance(1, 3) {
+				// a token handed out before the delete proves nothing afterwards: NotFound for every later request
+				prog = append(prog, &Op{Kind: "checktoken", Name: t, Key: []byte("TokenFor-" + t)})
+				if g.R.Chance(1, 2) {
+					prog = append(prog, &Op{Kind: "gentoken", Name: t})
+				}
+			}
 		case 10:
 			prog = append(prog, &Op{Kind: "list", Name: core.Pick(g.R, Parents)})
 			write = false
 		case 11:
-			prog = append(prog, &Op{Kind: "get", Name: t})
+			switch g.R.Weighted([]int{60, 15, 25}) {
+			case 0:
+				prog = append(prog, &Op{Kind: "get", Name: t})
+			case 1:
+				prog = append(prog, &Op{Kind: "gentoken", Name: t})
+			default:
+				other := g.pickTable()
+				tok := core.Pick(g.R, []string{"TokenFor-" + t, "TokenFor-" + t, "TokenFor-" + other, "", "TokenFor-", "x"})
+				prog = append(prog, &Op{Kind: "checktoken", Name: t, Key: []byte(tok)})
+			}
 			write = false
 		case 12:
 			prog = append(prog, &Op{Kind: "gc", Name: t})
